@@ -30,7 +30,7 @@ import (
 
 func init() {
 	Register(&Rule{ID: "R-SRT-5", Props: []string{"C07", "C17"}, Floor: 3,
-		Doc: "the per-row sort-value caches of a View stay aligned with its rows: along the SELECT pipeline (selectEntity → View.Select → OrderBy → Offset → Limit, followed through every function and closure that receives the view) a typestate analysis tracks, per cache field, nil / aligned / shifted / stale; whenever RecordSet is replaced or its rows are shifted the cache must be dropped or shifted by the same amount before anything reads it (ORDER BY reads the per-cell cache left by analytic functions and DISTINCT, LIMIT … WITH TIES reads the per-record keys after OFFSET)",
+		Doc:      "the per-row sort-value caches of a View stay aligned with its rows: along the SELECT pipeline (selectEntity → View.Select → OrderBy → Offset → Limit, followed through every function and closure that receives the view) a typestate analysis tracks, per cache field, nil / aligned / shifted / stale; whenever RecordSet is replaced or its rows are shifted the cache must be dropped or shifted by the same amount before anything reads it (ORDER BY reads the per-cell cache left by analytic functions and DISTINCT, LIMIT … WITH TIES reads the per-record keys after OFFSET)",
 		Controls: []string{"CtlCacheShiftOnlyRows", "CtlCacheKeptAfterReplace"},
 		Run:      ruleSrt5})
 }
@@ -878,6 +878,25 @@ func ruleSrt5(c *Ctx) {
 		}
 		return roots
 	}
+	// the call may have been moved into a private helper of the pipeline function: analyse from there
+	hostOf := func(fn *ssa.Function, names ...string) *ssa.Function {
+		if len(resultsOf(fn, names...)) > 0 {
+			return fn
+		}
+		var hs []*ssa.Function
+		for h := range privateHelpersOf(c.P, fn, 2) {
+			hs = append(hs, h)
+		}
+		sort.Slice(hs, func(i, j int) bool { return c.P.Name(hs[i]) < c.P.Name(hs[j]) })
+		for _, h := range hs {
+			if len(resultsOf(h, names...)) > 0 {
+				return h
+			}
+		}
+		return fn
+	}
+	ent = hostOf(ent, "lib/query.LoadView")
+	top = hostOf(top, "lib/query.selectEntity", "lib/query.selectSet")
 	r1 := resultsOf(ent, "lib/query.LoadView")
 	if len(r1) == 0 {
 		c.Unknown(c.KeyAt(ent, "view from LoadView"), c.FnPos(ent), "cannot-analyse: selectEntity does not take its view from LoadView")
@@ -936,6 +955,7 @@ func ruleLim4(c *Ctx) {
 			continue
 		}
 		recv := fn.Params[0]
+		private := privateHelpersOf(c.P, fn, 2)
 		isRS := func(v ssa.Value) bool {
 			for i := 0; i < 4; i++ {
 				if u, ok := v.(*ssa.UnOp); ok && u.Op == token.MUL {
@@ -967,6 +987,25 @@ func ruleLim4(c *Ctx) {
 				leaves(x.X, seen, out)
 			case *ssa.ChangeType:
 				leaves(x.X, seen, out)
+			case *ssa.Extract:
+				// a bound computed by a private helper: what the helper returns
+				if call, ok := x.Tuple.(*ssa.Call); ok {
+					if h := core.StaticCallee(call); h != nil && private[h] {
+						for _, rv := range core.ReturnedValues(h, x.Index) {
+							leaves(rv, seen, out)
+						}
+						return
+					}
+				}
+				*out = append(*out, v)
+			case *ssa.Call:
+				if h := core.StaticCallee(x); h != nil && private[h] && h.Signature.Results().Len() == 1 {
+					for _, rv := range core.ReturnedValues(h, 0) {
+						leaves(rv, seen, out)
+					}
+					return
+				}
+				*out = append(*out, v)
 			case *ssa.UnOp:
 				if x.Op == token.MUL {
 					if fa, ok := x.X.(*ssa.FieldAddr); ok && fa.X == ssa.Value(recv) {
